@@ -783,6 +783,112 @@ pub fn suite_fault_init(work: &Path, out: &mut dyn Write, emulated_procfs: bool)
     let _ = fs::remove_dir_all(&d);
 }
 
+/// First use of the library in a fresh process, step by step, with the descriptor table after every step.  By design
+/// the first use creates the process-global procfs handle, which stays open (close-on-exec, on procfs); nothing else may
+/// stay open, and later calls add nothing.  Scenarios (each in its own forked child): a procfs lookup of a path outside
+/// the pid directories first (on a masked global handle that is the ENOENT retry on a temporary unmasked handle), an
+/// emulated in-root lookup through a symlink first (reads the fs.protected_symlinks sysctl through procfs), a reopen first.
+pub fn suite_fd_init(work: &Path, out: &mut dyn Write, no_openat2: bool) {
+    let d = work.join("fdinit");
+    let _ = fs::remove_dir_all(&d);
+    fs::create_dir_all(d.join("a/b")).unwrap();
+    fs::write(d.join("a/f"), b"x").unwrap();
+    let _ = std::os::unix::fs::symlink("a", d.join("l"));
+    for scenario in ["proc_open_first", "resolve_first", "reopen_first"] {
+        let mut fds = [0i32; 2];
+        unsafe { libc::pipe(fds.as_mut_ptr()) };
+        let pid = unsafe { libc::fork() };
+        if pid == 0 {
+            unsafe { libc::close(fds[0]) };
+            if no_openat2 {
+                pathrs::verif::FORCE_OPENAT2_ENOSYS.store(true, std::sync::atomic::Ordering::SeqCst);
+            }
+            let mut lines = String::new();
+            let mut prev = ops::fd_table();
+            let mut step = |name: &str, f: &mut dyn FnMut() -> String| {
+                let res = f();
+                let now = ops::fd_table();
+                let mut extra = String::new();
+                for a in &now {
+                    if a.0 != fds[1] && !prev.iter().any(|b| b.0 == a.0) {
+                        extra.push_str(&format!(" +{}:{}", a.0, crate::procsuite::describe(a.0).replace(' ', ",")));
+                    }
+                }
+                for b in &prev {
+                    if !now.iter().any(|a| a.0 == b.0) {
+                        extra.push_str(&format!(" -{}", b.0));
+                    }
+                }
+                lines.push_str(&format!("fdinit scenario={scenario} step={name} res={res} extra={}\n", if extra.is_empty() { " none".to_string() } else { extra }));
+                prev = now;
+            };
+            let proc_open = &mut || {
+                match pathrs::verif::global_procfs().open(pathrs::procfs::ProcfsBase::ProcRoot, "uptime", pathrs::flags::OpenFlags::O_RDONLY) {
+                    Ok(_f) => "ok".to_string(),
+                    Err(e) => ops::kind_str(&e.kind()).replace(' ', ":"),
+                }
+            };
+            let resolve = &mut || {
+                let mut root = Root::open(&d).expect("open root");
+                root.verif_set_emulated(true);
+                match root.resolve("l/b/../f") {
+                    Ok(_h) => "ok".to_string(),
+                    Err(e) => ops::kind_str(&e.kind()).replace(' ', ":"),
+                }
+            };
+            let reopen = &mut || {
+                let root = Root::open(&d).expect("open root");
+                match root.resolve("a/f").and_then(|h| h.reopen(pathrs::flags::OpenFlags::O_RDONLY)) {
+                    Ok(_f) => "ok".to_string(),
+                    Err(e) => ops::kind_str(&e.kind()).replace(' ', ":"),
+                }
+            };
+            match scenario {
+                "proc_open_first" => {
+                    step("proc_open", proc_open);
+                    step("proc_open_again", proc_open);
+                    step("resolve", resolve);
+                    step("reopen", reopen);
+                }
+                "resolve_first" => {
+                    step("resolve", resolve);
+                    step("resolve_again", resolve);
+                    step("proc_open", proc_open);
+                    step("reopen", reopen);
+                }
+                _ => {
+                    step("reopen", reopen);
+                    step("reopen_again", reopen);
+                    step("proc_open", proc_open);
+                    step("resolve", resolve);
+                }
+            }
+            unsafe {
+                libc::write(fds[1], lines.as_ptr() as *const _, lines.len());
+                libc::_exit(0)
+            };
+        }
+        unsafe { libc::close(fds[1]) };
+        let mut buf = vec![0u8; 65536];
+        let mut got = Vec::new();
+        loop {
+            let r = unsafe { libc::read(fds[0], buf.as_mut_ptr() as *mut _, buf.len()) };
+            if r <= 0 {
+                break;
+            }
+            got.extend_from_slice(&buf[..r as usize]);
+        }
+        unsafe { libc::close(fds[0]) };
+        let mut status = 0;
+        unsafe { libc::waitpid(pid, &mut status, 0) };
+        if got.is_empty() {
+            writeln!(out, "fdinit scenario={scenario} step=child res=DIED:{status} extra= none").unwrap();
+        }
+        out.write_all(&got).unwrap();
+    }
+    let _ = fs::remove_dir_all(&d);
+}
+
 fn first_use_child(dir: &Path, fault: Option<(usize, i32)>, emulated_procfs: bool) -> String {
     first_use_child_f(dir, fault.map(|(k, e)| Fault::Single(k, e)), emulated_procfs)
 }
